@@ -183,8 +183,13 @@ Quiet == /\ mode = "app" /\ S.backlog = <<>> /\ ~(S.killed /\ S.hasKill) /\ S.ou
 QuietNotReady == Quiet => Ready = {}
 
 \* C09 / C10: a connection that can be released is noticed (the next poll sweeps it)
+\* (named deviation SlowRelease: if the peer shut down only its receiving side while our send buffer
+\*  is full, the kernel reports nothing for that socket; such a connection is swept by the next
+\*  requests() call that any other event causes, or when the peer finally closes)
 ReleasableReady ==
-    mode = "app" => \A f \in Open(S) : IsDone(S.srv[f]) => ConnEvent(S, f, Writable) # "none"
+    mode = "app" => \A f \in Open(S) :
+        IsDone(S.srv[f]) => \/ ConnEvent(S, f, Writable) # "none"
+                            \/ LET c == S.srv[f].peer IN S.cl[c].st = "open" /\ S.cl[c].rd /\ ~Writable(c)
 
 \* C10: a refused client holds exactly the fixed message (or nothing if it had gone) and is disconnected
 Refused503 ==
